@@ -759,7 +759,6 @@ class Event:
         if isinstance(self, GestureEvent):
             file.write(struct.pack('f', self.gesture_sequence_duration))
         if self.tag_name is not None or self.tag_wav_name is not None:
-            file.write(b'\x01')
             file.write(struct.pack(
                 '<Bhh', True,
                 add_to_pool(self.tag_name or ''),
